@@ -3,10 +3,11 @@
 # the quick check of property <id> report a violation (the repository is restored afterwards).
 cd /verif
 trap 'git -C /repo checkout -- .' EXIT INT TERM
-for d in seeded/C*/; do
-  id=$(basename $d)
-  git -C /repo checkout -- . ; git -C /repo apply /verif/$d/patch.diff || { echo "$id PATCH-DOES-NOT-APPLY"; continue; }
+pat=${1:-C*}   # optional glob, e.g. ./seed_all.sh 'C*-r2'
+for d in seeded/$pat/; do
+  name=$(basename $d); id=${name%%-*}
+  git -C /repo checkout -- . ; git -C /repo apply /verif/$d/patch.diff || { echo "$name PATCH-DOES-NOT-APPLY"; continue; }
   out=$(timeout 900 ./check.py $id --tier quick --skip-proofs 2>&1 | grep -c "^VIOLATION")
   git -C /repo checkout -- .
-  if [ "$out" -ge 1 ]; then echo "$id caught ($out)"; else echo "$id MISSED"; fi
+  if [ "$out" -ge 1 ]; then echo "$name caught ($out)"; else echo "$name MISSED"; fi
 done
